@@ -24,55 +24,55 @@ theorem distance_grad_group2 (g1 g2 : AGroup ℝ) (h1 : MassOk g1) (h2 : MassOk 
     (k : Nat) (hk : k < g2.length) (d : V3 ℝ) :
     HasDerivAt (fun t : ℝ => distance g1 (move g2 k (V3.smul t d)))
       (V3.dot ((distanceGrad g1 g2).2.getD k V3.zero) d) 0 := by
-  sorry
+  exact distance_grad2 g1 g2 (msum_pos _ h2.1 h2.2).ne' hne k hk d
 
 theorem distance_grad_group1 (g1 g2 : AGroup ℝ) (h1 : MassOk g1) (h2 : MassOk g2) (hne : distance g1 g2 ≠ 0)
     (k : Nat) (hk : k < g1.length) (d : V3 ℝ) :
     HasDerivAt (fun t : ℝ => distance (move g1 k (V3.smul t d)) g2)
       (V3.dot ((distanceGrad g1 g2).1.getD k V3.zero) d) 0 := by
-  sorry
+  exact distance_grad1 g1 g2 (msum_pos _ h1.1 h1.2).ne' hne k hk d
 
 theorem distanceZ_grad_main (main ref : AGroup ℝ) (axis : V3 ℝ) (hm : MassOk main) (hr : MassOk ref)
     (k : Nat) (hk : k < main.length) (d : V3 ℝ) :
     HasDerivAt (fun t : ℝ => distanceZ (move main k (V3.smul t d)) ref axis)
       (V3.dot ((distanceZGrad main ref axis).1.getD k V3.zero) d) 0 := by
-  sorry
+  exact distanceZ_grad_m main ref axis (msum_pos _ hm.1 hm.2).ne' k hk d
 
 theorem distanceZ_grad_ref (main ref : AGroup ℝ) (axis : V3 ℝ) (hm : MassOk main) (hr : MassOk ref)
     (k : Nat) (hk : k < ref.length) (d : V3 ℝ) :
     HasDerivAt (fun t : ℝ => distanceZ main (move ref k (V3.smul t d)) axis)
       (V3.dot ((distanceZGrad main ref axis).2.getD k V3.zero) d) 0 := by
-  sorry
+  exact distanceZ_grad_r main ref axis (msum_pos _ hr.1 hr.2).ne' k hk d
 
 /-- the axis through ref and ref2 moves with them: the gradients on the two reference groups (as repaired) -/
 theorem distanceZ2_grad_ref1 (main r1 r2 : AGroup ℝ) (hm : MassOk main) (h1 : MassOk r1) (h2 : MassOk r2)
     (hax : V3.norm (V3.sub (com r2) (com r1)) ≠ 0) (k : Nat) (hk : k < r1.length) (d : V3 ℝ) :
     HasDerivAt (fun t : ℝ => distanceZ2 main (move r1 k (V3.smul t d)) r2)
       (V3.dot ((distanceZ2Grad main r1 r2).2.1.getD k V3.zero) d) 0 := by
-  sorry
+  exact distanceZ2_grad_r1 main r1 r2 (msum_pos _ h1.1 h1.2).ne' hax k hk d
 
 theorem distanceZ2_grad_ref2 (main r1 r2 : AGroup ℝ) (hm : MassOk main) (h1 : MassOk r1) (h2 : MassOk r2)
     (hax : V3.norm (V3.sub (com r2) (com r1)) ≠ 0) (k : Nat) (hk : k < r2.length) (d : V3 ℝ) :
     HasDerivAt (fun t : ℝ => distanceZ2 main r1 (move r2 k (V3.smul t d)))
       (V3.dot ((distanceZ2Grad main r1 r2).2.2.getD k V3.zero) d) 0 := by
-  sorry
+  exact distanceZ2_grad_r2 main r1 r2 (msum_pos _ h2.1 h2.2).ne' hax k hk d
 
 theorem distanceZ2_grad_main (main r1 r2 : AGroup ℝ) (hm : MassOk main) (h1 : MassOk r1) (h2 : MassOk r2)
     (k : Nat) (hk : k < main.length) (d : V3 ℝ) :
     HasDerivAt (fun t : ℝ => distanceZ2 (move main k (V3.smul t d)) r1 r2)
       (V3.dot ((distanceZ2Grad main r1 r2).1.getD k V3.zero) d) 0 := by
-  sorry
+  exact distanceZ2_grad_m main r1 r2 (msum_pos _ hm.1 hm.2).ne' k hk d
 
 theorem distanceXY_grad_main (main ref : AGroup ℝ) (axis : V3 ℝ) (hm : MassOk main) (hr : MassOk ref)
     (hax : V3.norm axis ≠ 0) (hne : distanceXY main ref axis ≠ 0) (k : Nat) (hk : k < main.length) (d : V3 ℝ) :
     HasDerivAt (fun t : ℝ => distanceXY (move main k (V3.smul t d)) ref axis)
       (V3.dot ((distanceXYGrad main ref axis).1.getD k V3.zero) d) 0 := by
-  sorry
+  exact distanceXY_grad_m main ref axis (msum_pos _ hm.1 hm.2).ne' hax hne k hk d
 
 theorem gyration_grad (g : AGroup ℝ) (hg : g ≠ []) (hne : gyration g ≠ 0) (k : Nat) (hk : k < g.length) (d : V3 ℝ) :
     HasDerivAt (fun t : ℝ => gyration (move g k (V3.smul t d)))
       (V3.dot ((gyrationGrad g).getD k V3.zero) d) 0 := by
-  sorry
+  exact gyration_grad_mv g hg hne k hk d
 
 /-! ## combination of components and the bias force -/
 
@@ -83,7 +83,8 @@ theorem combine_chain (cs : List (ℝ × Nat)) (q : Nat → ℝ → ℝ) (q' : N
     HasDerivAt (fun t : ℝ => combine ((List.range cs.length).map fun i => ({ c := (cs.getD i (0, 0)).1, n := (cs.getD i (0, 0)).2, q := q i t } : Term ℝ)))
       (((List.range cs.length).map fun i =>
           termFactor ({ c := (cs.getD i (0, 0)).1, n := (cs.getD i (0, 0)).2, q := q i 0 } : Term ℝ) * q' i).sum) 0 := by
-  sorry
+  exact combine_chain_gen (List.range cs.length) (fun i => (cs.getD i (0, 0)).1) (fun i => (cs.getD i (0, 0)).2) q q'
+    (fun i hi => hq i (List.mem_range.mp hi))
 
 /-- **force = −∇E** for a harmonic restraint on a variable `x = c · distance(g1, g2)ⁿ`: the energy reported is
     `½ k ((x − x₀)/w)²`, the force on the variable is `−k (x − x₀)/w²`, and the force handed to the engine for atom
@@ -97,13 +98,30 @@ theorem harmonic_force_is_minus_gradient (g1 g2 : AGroup ℝ) (h1 : MassOk g1) (
     let fatom := V3.smul (fvar * termFactor ({ c := c, n := n, q := distance g1 g2 } : Term ℝ))
                    ((distanceGrad g1 g2).2.getD j V3.zero)
     HasDerivAt (fun t : ℝ => energy (move g2 j (V3.smul t d))) (-(V3.dot fatom d)) 0 := by
-  sorry
+  intro x energy fvar fatom
+  have hq := distance_grad2 g1 g2 (msum_pos _ h2.1 h2.2).ne' hne j hj d
+  have h := harmonic_energy_deriv c n kf x₀ w hw (fun t => distance g1 (mv g2 j (V3.smul t d))) _ hq
+  have h0 : distance g1 (mv g2 j (V3.smul 0 d)) = distance g1 g2 := by
+    have : mv g2 j (V3.smul 0 d) = g2 := by
+      unfold mv
+      have hz : V3.smul 0 d = ⟨0, 0, 0⟩ := by apply v3_ext <;> simp [V3.smul]
+      rw [hz]
+      conv_rhs => rw [← List.modify_id (l := g2) (i := j)]
+      congr 1
+      funext a
+      cases a with
+      | mk m r => cases r; simp [V3.add]
+    rw [this]
+  simp only [h0] at h
+  refine h.congr_deriv ?_
+  simp only [fatom, fvar, x, V3.dot, V3.smul]
+  ring
 
 /-- no net force and no force on atoms that are not in the groups: the gradients of a distance sum to zero over all
     its atoms (translation invariance seen from the forces) -/
 theorem distance_grad_sum_zero (g1 g2 : AGroup ℝ) (h1 : MassOk g1) (h2 : MassOk g2) :
     V3.add (groupForce (distanceGrad g1 g2).1) (groupForce (distanceGrad g1 g2).2) = V3.zero := by
-  sorry
+  exact distance_grad_sum g1 g2 (msum_pos _ h1.1 h1.2).ne' (msum_pos _ h2.1 h2.2).ne'
 
 /-! ## non-vacuity -/
 example : MassOk [({ m := 12, r := ⟨0, 0, 0⟩ } : Atom ℝ), { m := 1, r := ⟨1, 0, 0⟩ }] := by
